@@ -122,9 +122,9 @@ type target struct {
 	// mutable reports whether a known setting may be changed by a transaction.
 	mutable func(k string) bool
 	// path maps a known setting to its path in the generic decode of the record.
-	path func(k string) string
-	trim bool     // keys and values are trimmed before use (storage)
-	keys []string // known keys, sorted (for generation and the self-check)
+	path  func(k string) string
+	trim  bool     // keys and values are trimmed before use (storage)
+	keys  []string // known keys, sorted (for generation and the self-check)
 	pairs [][2]string
 }
 
@@ -154,7 +154,9 @@ var records = []record{
 	{keyGlobals, "globals", func(p string) bool { return false }},
 	{keyStorageConf, "storage", func(p string) bool { return p == "Minted" }},
 	{keyStorageStg, "storage-staged", func(p string) bool { return false }},
-	{keyFaucet, "faucet", func(p string) bool { return p == "Used" || p == "StartTime" || strings.HasPrefix(p, "StartTime") || p == "ID" }},
+	{keyFaucet, "faucet", func(p string) bool {
+		return p == "Used" || p == "StartTime" || strings.HasPrefix(p, "StartTime") || p == "ID"
+	}},
 	{keyVesting, "vesting", func(p string) bool { return false }},
 	{keyZcn, "zcn", func(p string) bool { return p == "ID" }},
 }
@@ -205,8 +207,10 @@ func init() {
 				return fromConfigType(s.ConfigType), true
 			},
 			mutable: func(string) bool { return true },
-			path:    func(k string) string { return dotted("", k, map[string]string{"t_percent": "TPercent", "k_percent": "KPercent", "x_percent": "XPercent"}) },
-			pairs:   [][2]string{{"min_n", "max_n"}, {"min_s", "max_s"}, {"min_stake", "max_stake"}},
+			path: func(k string) string {
+				return dotted("", k, map[string]string{"t_percent": "TPercent", "k_percent": "KPercent", "x_percent": "XPercent"})
+			},
+			pairs: [][2]string{{"min_n", "max_n"}, {"min_s", "max_s"}, {"min_stake", "max_stake"}},
 		}
 	}
 	// ---- chain globals (stored by the miner contract) ----
